@@ -112,3 +112,54 @@ def is_imm(target, imm) -> bool:
         if target == t or target.startswith(t + "/"):
             return True
     return False
+
+
+def static_callees(p: Program, fi):
+    """Package functions called directly from fi's own body, resolved through module bindings,
+    self/cls/ClassName method lookup.  [(call node, FunctionInfo)]"""
+    import ast
+    out = []
+    for n in walk_own(fi.node):
+        if not isinstance(n, ast.Call):
+            continue
+        f = n.func
+        target = None
+        if isinstance(f, ast.Name):
+            r = p.resolve_global(fi.module, f.id)
+            if r and r[0] == "func":
+                target = r[1]
+        elif isinstance(f, ast.Attribute) and isinstance(f.value, ast.Name):
+            base = f.value.id
+            ci = None
+            if base in ("self", "cls") and fi.cls is not None:
+                ci = fi.cls
+            else:
+                r = p.resolve_global(fi.module, base)
+                if r and r[0] == "class":
+                    ci = r[1]
+                elif r and r[0] == "module":
+                    r2 = p.resolve_global(r[1], f.attr)
+                    if r2 and r2[0] == "func":
+                        target = r2[1]
+            if ci is not None:
+                c_, m = p.lookup_method(ci, f.attr)
+                if m:
+                    target = m[0]
+        if target is not None:
+            out.append((n, target))
+    return out
+
+
+def with_callees(p: Program, fi, depth: int = 2):
+    """fi followed by the package functions it calls, transitively to `depth` (each once)."""
+    seen = {fi.qualname: fi}
+    frontier = [fi]
+    for _ in range(depth):
+        nxt = []
+        for f in frontier:
+            for _n, g in static_callees(p, f):
+                if g.qualname not in seen:
+                    seen[g.qualname] = g
+                    nxt.append(g)
+        frontier = nxt
+    return list(seen.values())
